@@ -93,6 +93,8 @@ Eval(op, a, n) ==
     [] op = "GDecoder3" -> IF a[1] < 3 THEN [ok |-> TRUE, out |-> [k \in 1..3 |-> IF k - 1 = a[1] THEN 1 ELSE 0], any |-> FALSE] ELSE Fail
     \* bitslice.Partition(v, split = n): v = lower + upper * 2^n with lower < 2^n (and upper < 2^(bits-n))
     [] op = "GPartition" -> [ok |-> TRUE, out |-> <<a[1] % Pow2(n), a[1] \div Pow2(n)>>, any |-> FALSE]
+    \* rangecheck.New(api).Check(v, n) on an API without commitments (bit-decomposition checker): v < 2^n
+    [] op = "GRangePlain" -> Assert(a[1] < Pow2(n))
     [] op = "AssertIsEqual" -> Assert(a[1] = a[2])
     [] op = "AssertIsDifferent" -> Assert(a[1] # a[2])
     [] op = "AssertIsBoolean" -> Assert(IsBool(a[1]))
@@ -103,10 +105,10 @@ Ops == {"Add", "Add3", "Sub", "Sub3", "Neg", "Mul", "Mul3", "MulAcc", "Div", "Di
         "ToBinary", "FromBinary", "Xor", "Or", "And", "Select", "Lookup2", "IsZero", "Cmp",
         "AssertIsEqual", "AssertIsDifferent", "AssertIsBoolean", "AssertIsCrumb", "AssertIsLessOrEqual",
         "PlonkExpr", "PlonkGate",
-        "GIsLess", "GIsLessEq", "GMux2", "GMux3", "GMux4", "GMux5", "GMap3", "GDecoder3", "GPartition"}
+        "GIsLess", "GIsLessEq", "GMux2", "GMux3", "GMux4", "GMux5", "GMap3", "GDecoder3", "GPartition", "GRangePlain"}
 
 Arity(op) ==
-  CASE op \in {"Neg", "Inverse", "ToBinary", "IsZero", "AssertIsBoolean", "AssertIsCrumb", "GDecoder3", "GPartition"} -> 1
+  CASE op \in {"Neg", "Inverse", "ToBinary", "IsZero", "AssertIsBoolean", "AssertIsCrumb", "GDecoder3", "GPartition", "GRangePlain"} -> 1
     [] op \in {"Add", "Sub", "Mul", "Div", "DivUnchecked", "Xor", "Or", "And", "Cmp", "PlonkExpr", "GIsLess", "GIsLessEq",
                "AssertIsEqual", "AssertIsDifferent", "AssertIsLessOrEqual"} -> 2
     [] op \in {"Add3", "Sub3", "Mul3", "MulAcc", "FromBinary", "Select", "PlonkGate", "GMux2"} -> 3
